@@ -17,9 +17,9 @@ from checks import _batchdb as B
 
 LEVEL = "model_checking"
 MANIFEST = {
-    "technique": "TLA+ spec BatchDBLive: (+ DriverApi: the driver HTTP API refines BatchDB) TLC liveness checking under weak fairness + safety invariants; state-graph replay on the real stored procedures (MiniMySQL) and enabledness comparison of the real scheduler/canceller selection SQL with the specification's loop actions",
+    "technique": "TLA+ spec BatchDBLive: (+ DriverApi: the driver HTTP API refines BatchDB) TLC liveness checking under weak fairness + safety invariants; state-graph replay on the real stored procedures (MiniMySQL) and enabledness comparison of the real scheduler/canceller selection SQL with the specification's loop actions; graph replay by a rewinding traversal (every edge class, then every edge); overlapping-transactions stage: a second request runs inside the first at every statement boundary under a two-transaction isolation model of MiniMySQL and the result must be that of a serial order in the TLC graph",
     "text": "All interleavings of the driver loops, worker reports (duplicated, late, stale) and cancellation for small batches are explored; under fairness all-updates-committed leads to every job terminal and the batch complete, also after cancellation; always-run jobs are never cancelled; only the current attempt completes a running job. The code is tied to the specification by replaying the graph on the real SQL and by checking that the driver's real selection queries select exactly the jobs the specification's loop actions are enabled for.",
-    "note": "Driver API stage: task manager, resource manager, instance config, job_config and the HTTP client to the worker are faked; an authenticated worker reporting about attempts never dispatched to it is outside what the API can refuse (recorded as a note, feature `rogue`). Liveness is a property of the specification (fairness assumptions stated in BatchDBLive.tla); instance failures are excluded from the liveness configurations; the autoscaler is not modelled (it creates instances, which the model has from the start).",
+    "note": "Driver API stage: task manager, resource manager, instance config, job_config and the HTTP client to the worker are faked; an authenticated worker reporting about attempts never dispatched to it is outside what the API can refuse (recorded as a note, feature `rogue`). Liveness is a property of the specification (fairness assumptions stated in BatchDBLive.tla); instance failures are excluded from the liveness configurations; the autoscaler is not modelled (it creates instances, which the model has from the start). The overlapping-transactions stage trusts the isolation model of vlib/minimysql/isolation.py (consistent reads, predicate locks approximating InnoDB next-key locks, lock waits; approximations err towards waiting).",
     "design_ref": "DESIGN.md section 5, C39",
 }
 
